@@ -2452,7 +2452,8 @@ class Connection_decode( decide ):
             truth, machine=machine, source=source, path=path, data=data )
         if truth:
             pathsrc		= path + '.' + self.src
-            parameters		= defaults.Connection( **data[pathsrc] )
+            # The size class is that of the service being parsed (16- or 32-bit NCP), not guessed from the value
+            parameters		= defaults.Connection( **dict( data[pathsrc], large=self.lrg ))
             data[pathsrc]	= parameters.decoding
 
         return target
